@@ -297,6 +297,7 @@ class Ctx(InterpMixin, ModelsMixin):
         self.entry_ns = {}
         self.elem_cache = {}      # element kind -> {ref id: (ref, materialised object)}
         self.fold_done = set()
+        self.fold_keep = []
         self.default_elem = engine.default_elem
         self.be_cache = {}        # (Int term id, width) -> (term, byte terms): canonical big-endian bytes
         self.applied = {}         # callee function -> (contract, namespace) of its last application
